@@ -3,32 +3,24 @@ PROP = dict(
     functions=[
         "statime_csptp::source::add_correction (private, via hook wrapper)",
         "statime_csptp::source::convert_to_ntp (private, via hook wrapper)",
-        "statime_csptp::source::CsptpSource::<RefCell<InternalState>, NullCtl>::collect_response (private async fn, via hook wrapper; polled with Waker::noop over a scripted in-memory ClientSocket)",
-        "statime_csptp::messages::CsptpMessage::deserialize, CsptpResponseTlv::try_from, statime_wire::Message::deserialize, TlvSet iteration (reached from collect_response)",
+        "statime_csptp::messages::CsptpMessage::{deserialize,is_request,is_response} (crate-private, via thin hook wrappers) on the answer template",
+        "statime_csptp::messages::tlvs::CsptpResponseTlv::try_from, statime_wire::Message::deserialize, TlvSet iteration (reached from CsptpMessage::deserialize)",
     ],
     bounds="add_correction: every 48-bit seconds / nanos < 1e9 timestamp, corrections |c>>16| < 2^32 ns (quick) and < 2^40 ns = 18 min (thorough, c44_corr_40); convert_to_ntp: every valid wire timestamp; "
-           "collect_response: scripts of 2 (quick: S F, F S) / 3 (thorough: S S F, F F S, S R F, F S F) datagrams per request, each datagram one of the templates {Sync + CSPTP response TLV (66 bytes), Follow_Up (44 bytes), Sync + CSPTP request TLV (52 bytes)} with concrete first octet (sdoId high nibble 3 + messageType), messageLength and TLV type+length fields and every other byte symbolic "
-           "(domain, sequence id, flags incl. two-step, sdoId low byte, version byte, correction fields, timestamps), per datagram a symbolic receive timestamp (present/absent) and a symbolic socket error; symbolic request domain, sequence id and send timestamp",
-    outside="add_correction in-range proof for |correction| >= 2^40 ns (solver time x1.7 per bit: 3 s at 2^32, 230 s at 2^40; the finding harness needs no such proof); convert_to_ntp binary fraction beyond three anchor points (C32 verifies the constructor it calls); CsptpSource::run (poll timer, rng, socket creation, timeout race, the two handle_measurement calls and the status update `steps_removed + 1`, which overflows in the dev profile for steps_removed = 65535); unstructured (non-template) datagrams reach only Message::deserialize, which C41 covers; "
+           "answer template: Sync + CSPTP response TLV (66 bytes) with concrete first octet (sdoId high nibble 3 + messageType), messageLength and TLV type+length fields, every other byte symbolic",
+    outside="add_correction in-range proof for |correction| >= 2^40 ns (solver time x1.7 per bit: 3 s at 2^32, 230 s at 2^40; the finding harness needs no such proof); convert_to_ntp binary fraction beyond three anchor points (C32 verifies the constructor it calls); the response-collection state machine collect_response itself (matching of domain and sequence id against the pending request, one-step/two-step/follow-up ordering, at-most-once): harnesses c44_collect* (scripted in-memory socket, Waker::noop, reference state machine) are written but NOT registered - CBMC exhausts 8 GB / 25 min during symbolic execution even for a single datagram (the coroutine carries two 512-byte buffers by value); CsptpSource::run (poll timer, rng, socket creation, timeout race, the two handle_measurement calls and the status update `steps_removed + 1`, which overflows in the dev profile for steps_removed = 65535); unstructured (non-template) datagrams reach only Message::deserialize, which C41 covers; "
             "more than 3 datagrams per request; timestamps whose nanoseconds field is exactly 10^9 (the wire parser accepts them, Timestamp::new does not: see report)",
     assumptions=[
         "wire timestamps handed to add_correction/convert_to_ntp have nanos < 1e9 (Timestamp::new invariant)",
         "c44_corr: corrected time lies in [0, 2^48 s) (the complement is the finding harness c44_corr_kf_seconds_out_of_range); |correction| < 2^32 ns in the quick harness",
-        "template datagrams: nanoseconds fields != 10^9 exactly",
-        "the scripted socket delivers each datagram immediately and stays pending when the script is exhausted (the real caller races collect_response against a timeout)",
+        "answer template: nanoseconds fields != 10^9 exactly",
     ],
-    stub_notes=["no stubs: harnesses are plain #[kani::proof]; ClientSocket is implemented by the harness (scripted in-memory socket), SourceController by a no-op"],
+    stub_notes=["no stubs: harnesses are plain #[kani::proof]"],
     harnesses=[
         H(ST, "c44", "c44_corr", "add_correction = exact integer arithmetic and does not panic when the corrected time is representable (|correction| < 2^32 ns)"),
-        H(ST, "c44", "c44_to_ntp", "convert_to_ntp: epoch shift mod 2^32 and exact binary fraction, no panic"),
-        H(ST, "c44", "c44_collect_s", "collect_response, script of one Sync(+response TLV): one-step answer used iff well-formed, domain and sequence id match and a receive timestamp exists; otherwise keeps waiting", timeout=600),
-        H(ST, "c44", "c44_collect", "collect_response, script Sync(+response TLV), Follow_Up: equals the reference state machine - measurement only from matching domain+sequence id, fields taken from the right datagrams, nothing read after completion", timeout=600),
-        H(ST, "c44", "c44_collect_fs", "script Follow_Up, Sync (follow-up first)", timeout=600),
+        H(ST, "c44", "c44_to_ntp", "convert_to_ntp: epoch shift mod 2^32, fraction at three anchor points, no panic"),
+        H(ST, "c44", "c44_accept", "answer template (Sync + response TLV, 66 bytes) through CsptpMessage::deserialize: accepted iff well-formed, classified as response, every field the collection loop uses equals the bytes at its wire offset", timeout=900),
         H(ST, "c44", "c44_corr_40", "add_correction for |correction| < 2^40 ns (18 min)", tier="thorough", timeout_thorough=1800),
-        H(ST, "c44", "c44_collect_ssf", "script Sync, Sync, Follow_Up (duplicate sync ignored)", tier="thorough", timeout_thorough=1800),
-        H(ST, "c44", "c44_collect_ffs", "script Follow_Up, Follow_Up, Sync (duplicate follow-up ignored)", tier="thorough", timeout_thorough=1800),
-        H(ST, "c44", "c44_collect_srf", "script Sync, request-Sync, Follow_Up (foreign request ignored)", tier="thorough", timeout_thorough=1800),
-        H(ST, "c44", "c44_collect_fsf", "script Follow_Up, Sync, Follow_Up (completes at the second datagram; third unread)", tier="thorough", timeout_thorough=1800),
         H(ST, "c44", "c44_corr_kf_seconds_out_of_range", "FINDING (expected to fail until fixed): corrected seconds outside [0, 2^48) panic in add_correction"),
     ],
 )
